@@ -7,6 +7,8 @@ CONSTANTS
   StaleTimeout = FALSE
   StaleLists = FALSE
   ThresholdBefore = TRUE
+  ProbeCheckUpdated = TRUE
+  QuotaErrors = FALSE
   InitStates = {"Queued", "Locked"}
   B <- BFaults
   MaxHist = 120
